@@ -5,7 +5,8 @@ import Ivg.Lemmas.FloatOrder
 * `add_Rnd`, `sub_Rnd`, `mul_Rnd`, `div_Rnd`: on finite operands, the result pattern of `Num.add/sub/mul/div`
   is the correct rounding (`FloatOrder.Rnd`) of the exact rational result.
 * monotonicity of `+ - * /` for `F64` (`add_mono`, `sub_mono`, `mul_mono_nonneg`, `div_mono_pos`, …).
-* NaN propagation.
+* NaN propagation; sign facts: the quotient / square root of non-negative patterns is non-negative (or the
+  default NaN), `a - b` with `0 ≤ b ≤ a` is never `-0` (`div_pos0`, `sqrt_pos0`, `sub_pos0`).
 * `Ival`: intervals with finite `F64` endpoints; `Ival.add/sub/mul/div/neg`; soundness (`In_add`, …) in the form
   "if the computed interval is valid, the result of the float operation is a NaN or lies in it".
 -/
@@ -427,6 +428,12 @@ theorem neg_le_neg' {a b : F64} (h : a ≤ b) : -b ≤ -a := by
 def NaN (a : F64) : Prop := ¬ NN a
 instance (a : F64) : Decidable (NaN a) := by unfold NaN; infer_instance
 
+theorem NaN_iff_isNaN (a : F64) : NaN a ↔ a.isNaN = true := by
+  unfold NaN NN
+  show ¬ NNB a.nb ↔ Num.isNaN .f64 a.nb = true
+  rw [← isNaN_iff]
+  cases Num.isNaN .f64 a.nb <;> simp
+
 theorem unpack_nan (b : Nat) (h : ¬ NNB b) : unpack .f64 b = .nan b := by
   unfold NNB at h
   rw [unpack_f64, if_pos (by omega), if_neg (by omega)]
@@ -560,6 +567,120 @@ theorem not_le_nan_left {a b : F64} (h : NaN a) : ¬ a ≤ b := fun hh => h ((le
 theorem not_le_nan_right {a b : F64} (h : NaN b) : ¬ a ≤ b := fun hh => h ((le_def a b).1 hh).2.1
 theorem not_lt_nan_left {a b : F64} (h : NaN a) : ¬ a < b := fun hh => h ((lt_def a b).1 hh).1
 theorem not_lt_nan_right {a b : F64} (h : NaN b) : ¬ a < b := fun hh => h ((lt_def a b).1 hh).2.1
+
+/-! ## non-negative patterns (`+0 … +Inf`): sign facts for `/`, `sqrt`, `-` -/
+
+/-- sign bit clear and not a NaN -/
+def Pos0 (a : F64) : Prop := a.nb ≤ 9218868437227405312
+instance (a : F64) : Decidable (Pos0 a) := by unfold Pos0; infer_instance
+
+def zero : F64 := ⟨0⟩
+def posInf : F64 := ⟨0x7ff0000000000000⟩
+def maxF : F64 := ⟨0x7fefffffffffffff⟩
+
+theorem Pos0_NN {a : F64} (h : Pos0 a) : NN a := by unfold NN NNB; unfold Pos0 at h; omega
+
+theorem Pos0_kk {a : F64} (h : Pos0 a) : kk a = a.nb := by
+  unfold kk key; unfold Pos0 at h; split <;> omega
+
+theorem Pos0_ge {a : F64} (h : Pos0 a) : zero ≤ a := by
+  rw [le_def, Pos0_kk h]
+  refine ⟨by decide, Pos0_NN h, ?_⟩
+  have : kk zero = 0 := by decide
+  rw [this]; omega
+
+theorem Pos0_cases {a : F64} (h : Pos0 a) : (FloatMono.Fin a ∧ a ≤ maxF) ∨ a = posInf := by
+  unfold Pos0 at h
+  by_cases hc : a.nb = 9218868437227405312
+  · right; exact ext_nb (by rw [hc]; decide)
+  · left
+    have hf : FloatMono.Fin a := by unfold FloatMono.Fin FinB; omega
+    refine ⟨hf, ?_⟩
+    rw [le_def, Pos0_kk h]
+    refine ⟨Pos0_NN h, by decide, ?_⟩
+    have : kk maxF = 9218868437227405311 := by decide
+    rw [this]; omega
+
+/-- a non-NaN with a positive key has its sign bit clear -/
+theorem Pos0_of_kk {a : F64} (hn : NN a) (h : 0 < kk a) : Pos0 a := by
+  unfold NN NNB at hn; unfold kk key at h; unfold Pos0
+  have := nb_lt a
+  split at h <;> omega
+
+theorem roundPack_le_inf (m : Nat) (e : Int) (st : Bool) :
+    roundPack .f64 false m e st ≤ 9218868437227405312 := by
+  unfold roundPack
+  split
+  · simp [withSign]
+  · split
+    · rw [withSign64]; simp only [Bool.false_eq_true, if_false, Nat.zero_add]; exact roundMag_le_inf _ _
+    · rw [withSign64]; simp only [Bool.false_eq_true, if_false, Nat.zero_add]; exact roundMag_le_inf _ _
+
+theorem unpack_pos0 (b : Nat) (h : b ≤ 9218868437227405312) :
+    unpack .f64 b = .inf false ∨ ∃ m e, unpack .f64 b = .fin false m e := by
+  have hs : negB64 b = false := by unfold negB64; simp; omega
+  by_cases hc : b = 9218868437227405312
+  · left; rw [hc]; decide
+  · right
+    have hf : FinB b := by unfold FinB; omega
+    exact ⟨_, _, by rw [unpack_fin b hf, hs]⟩
+
+theorem defaultNaN_f64 : Fmt.f64.defaultNaN = 18444492273895866368 := by decide
+
+/-- the quotient of two non-negative patterns is non-negative or the default NaN -/
+theorem div_pos0B (a b : Nat) (ha : a ≤ 9218868437227405312) (hb : b ≤ 9218868437227405312) :
+    Num.div .f64 a b ≤ 9218868437227405312 ∨ Num.div .f64 a b = 18444492273895866368 := by
+  unfold Num.div
+  rcases unpack_pos0 a ha with h1 | ⟨m, e, h1⟩ <;> rcases unpack_pos0 b hb with h2 | ⟨n, g, h2⟩ <;>
+    rw [h1, h2] <;> simp only []
+  · right; exact defaultNaN_f64
+  · left; simp [withSign, infBits_f64]
+  · left; simp [withSign]
+  · split
+    · split
+      · right; exact defaultNaN_f64
+      · left; simp [withSign, infBits_f64]
+    · split
+      · left; simp [withSign]
+      · left
+        have : (false != false) = false := rfl
+        rw [this]
+        exact roundPack_le_inf _ _ _
+
+theorem div_pos0 {a b : F64} (ha : Pos0 a) (hb : Pos0 b) : NaN (a / b) ∨ Pos0 (a / b) := by
+  have h := div_pos0B a.nb b.nb ha hb
+  have hlt : Num.div .f64 a.nb b.nb < 18446744073709551616 := by omega
+  have e : (a / b).nb = Num.div .f64 a.nb b.nb := nb_ofNatBits _ hlt
+  rcases h with h | h
+  · right; unfold Pos0; rw [e]; exact h
+  · left; unfold NaN NN NNB; rw [e, h]; decide
+
+theorem sqrt_pos0B (a : Nat) (ha : a ≤ 9218868437227405312) : Num.sqrt .f64 a ≤ 9218868437227405312 := by
+  unfold Num.sqrt
+  rcases unpack_pos0 a ha with h1 | ⟨m, e, h1⟩ <;> rw [h1] <;> simp only []
+  · simpa using ha
+  · split
+    · exact ha
+    · simp only [Bool.false_eq_true, if_false]
+      exact roundPack_le_inf _ _ _
+
+theorem sqrt_pos0 {a : F64} (ha : Pos0 a) : Pos0 a.sqrt := by
+  have h := sqrt_pos0B a.nb ha
+  have e : a.sqrt.nb = Num.sqrt .f64 a.nb := nb_ofNatBits _ (by omega)
+  unfold Pos0; rw [e]; exact h
+
+/-- `a - b` for finite `0 ≤ b ≤ a`, `a` with sign bit clear: never `-0` -/
+theorem sub_pos0 {a b : F64} (fa : FloatMono.Fin a) (fb : FloatMono.Fin b) (hs : Pos0 a) (h : b ≤ a) : Pos0 (a - b) := by
+  have hv := val_le_of_le fb fa h
+  have hsg : negB64 a.nb = false := by unfold negB64; unfold Pos0 at hs; simp; omega
+  have hb := nb_lt b
+  have hsub : Num.sub .f64 a.nb b.nb = Num.add .f64 a.nb (Num.neg .f64 b.nb) := by
+    unfold Num.sub
+    rw [isNaN_of_FinB _ fa, isNaN_of_FinB _ fb]; rfl
+  have hle := add_nonneg_bits a.nb (Num.neg .f64 b.nb) fa (neg_FinB _ hb fb) hsg
+    (by rw [bval_neg _ hb]; unfold val at hv; linarith)
+  have e : (a - b).nb = Num.sub .f64 a.nb b.nb := nb_ofNatBits _ (by rw [hsub]; omega)
+  unfold Pos0; rw [e, hsub]; exact hle
 
 /-! ## intervals -/
 
@@ -791,6 +912,75 @@ theorem In_split {a : F64} {I : Ival} (m : F64) (hm : NN m) (hv : I.valid) (h : 
   · by_cases hc : a ≤ m
     · exact Or.inl (In_of_le a1 hc)
     · exact Or.inr (In_of_le (lt_le' (not_le_of_NN (le_NN_right a1) hm hc)) a2)
+
+/-! ### subdivision -/
+
+/-- smallest interval containing both -/
+def hull (I J : Ival) : Ival := chk (I.valid ∧ J.valid) ⟨fmin I.lo J.lo, fmax I.hi J.hi⟩
+
+theorem In_hull_left {a : F64} {I J : Ival} (h : In a I) : In a (hull I J) := by
+  intro hv
+  obtain ⟨⟨vI, vJ⟩, _, e⟩ := chk_valid hv
+  unfold hull; rw [e]
+  rcases h vI with hn | ⟨a1, a2⟩
+  · exact Or.inl hn
+  · exact Or.inr ⟨le_trans' (fmin_spec (Fin_NN vI.1) (Fin_NN vJ.1)).1 a1,
+      le_trans' a2 (fmax_spec (Fin_NN vI.2) (Fin_NN vJ.2)).1⟩
+
+theorem In_hull_right {a : F64} {I J : Ival} (h : In a J) : In a (hull I J) := by
+  intro hv
+  obtain ⟨⟨vI, vJ⟩, _, e⟩ := chk_valid hv
+  unfold hull; rw [e]
+  rcases h vJ with hn | ⟨a1, a2⟩
+  · exact Or.inl hn
+  · exact Or.inr ⟨le_trans' (fmin_spec (Fin_NN vI.1) (Fin_NN vJ.1)).2 a1,
+      le_trans' a2 (fmax_spec (Fin_NN vI.2) (Fin_NN vJ.2)).2⟩
+
+/-- a point between the endpoints (any non-NaN would do for soundness) -/
+def mid (I : Ival) : F64 := (I.lo + I.hi) * ⟨0x3fe0000000000000⟩
+
+/-- evaluate `f` on the `2^k` pieces of a uniform subdivision and take the hull -/
+def bisect (f : Ival → Ival) : Nat → Ival → Ival
+  | 0, I => f I
+  | k + 1, I =>
+    if I.valid ∧ NN (mid I) then hull (bisect f k ⟨I.lo, mid I⟩) (bisect f k ⟨mid I, I.hi⟩) else bad
+
+/-- subdivision is sound for every interval extension `f` of a float function `g` -/
+theorem In_bisect (f : Ival → Ival) (g : F64 → F64) (hf : ∀ x X, In x X → In (g x) (f X)) :
+    ∀ (k : Nat) (X : Ival) (x : F64), In x X → In (g x) (bisect f k X) := by
+  intro k
+  induction k with
+  | zero => intro X x h; exact hf x X h
+  | succ k ih =>
+    intro X x h
+    unfold bisect
+    split
+    · rename_i hc
+      rcases In_split (mid X) hc.2 hc.1 h with h1 | h2
+      · exact In_hull_left (ih _ _ h1)
+      · exact In_hull_right (ih _ _ h2)
+    · intro hv; exact absurd hv bad_invalid
+
+/-- geometric refinement towards the lower endpoint: `k+1` pieces `[lo, lo+w/2^k], …, [lo+w/2, hi]` -/
+def refineLo (f : Ival → Ival) : Nat → Ival → Ival
+  | 0, I => f I
+  | k + 1, I =>
+    if I.valid ∧ NN (mid I) then hull (refineLo f k ⟨I.lo, mid I⟩) (f ⟨mid I, I.hi⟩) else bad
+
+theorem In_refineLo (f : Ival → Ival) (g : F64 → F64) (hf : ∀ x X, In x X → In (g x) (f X)) :
+    ∀ (k : Nat) (X : Ival) (x : F64), In x X → In (g x) (refineLo f k X) := by
+  intro k
+  induction k with
+  | zero => intro X x h; exact hf x X h
+  | succ k ih =>
+    intro X x h
+    unfold refineLo
+    split
+    · rename_i hc
+      rcases In_split (mid X) hc.2 hc.1 h with h1 | h2
+      · exact In_hull_left (ih _ _ h1)
+      · exact In_hull_right (hf _ _ h2)
+    · intro hv; exact absurd hv bad_invalid
 
 end Ival
 
